@@ -9,10 +9,12 @@
 (* NoViolation.  Many executions are concatenated with "reset" events.     *)
 (*                                                                         *)
 (* Events (t = tick number relative to the start of the execution):        *)
-(*   reset nb            new execution with bufferevents 1..nb             *)
+(*   reset nb rf         new execution with bufferevents 1..nb (rf = 0: the *)
+(*                       peer sends nothing)                               *)
 (*   setcfg b rr rb wr wb  bufferevent_set_rate_limit (rr = 0: NULL)       *)
 (*   setmax b d m        bufferevent_set_max_single_read/write             *)
 (*   group rr rb wr wb ms  rate-limit group created, min_share ms          *)
+(*   gsetcfg rr rb wr wb   bufferevent_rate_limit_group_set_cfg            *)
 (*   join b / leave b                                                      *)
 (*   dec b d k           bufferevent_decrement_read/write_limit            *)
 (*   io b d n            one read (d=0) / write (d=1) operation moved n    *)
@@ -26,7 +28,7 @@
 EXTENDS Integers, Sequences, TLC, Json, IOUtils
 
 Trace == ndJsonDeserialize(IOEnv.TRACE)
-MaxT == 40                       \* ticks per execution (driver stays below)
+MaxT == 90                       \* ticks per execution (driver stays below)
 NB == 3
 Keys == 1..(2 * NB)              \* key = 2*(b-1) + d + 1
 Key(b, d) == 2 * (b - 1) + d + 1
@@ -45,8 +47,8 @@ VARIABLES l,      \* next event
 
 vars == <<l, st, bad>>
 
-Fresh(nb) ==
-    [nb |-> nb,
+Fresh(nb, rf) ==
+    [nb |-> nb, rf |-> rf,                              \* rf = 0: the peer sends nothing, reads cannot progress
      rate |-> [k \in Keys |-> 0], burst |-> [k \in Keys |-> 0],
      lvl |-> [k \in Keys |-> 0], last |-> [k \in Keys |-> 0],
      single |-> [k \in Keys |-> DEFSINGLE],
@@ -56,6 +58,7 @@ Fresh(nb) ==
      moved |-> [k \in Keys |-> [t \in 0..MaxT |-> 0]],
      credit |-> [k \in Keys |-> [t \in 0..MaxT |-> 0]],
      gmoved |-> [d \in 1..2 |-> [t \in 0..MaxT |-> 0]],
+     lastio |-> [k \in Keys |-> 0],                   \* tick of the last I/O (or of the last (re)configuration) per key
      tobs |-> 0, gsince |-> 0]                                    \* tick at which the group was created
 
 HasCfg(s, k) == s.rate[k] > 0
@@ -83,6 +86,18 @@ RlimMaxHi(s, b, d, t) ==
         grp == IF s.member[b] /\ s.hasg THEN ShareHi(s, d, t) ELSE INF
     IN Max(0, Min(s.single[k], Min(own, grp)))
 
+\* The group bucket is refilled by a timer, so the refill that belongs to the tick in which the configuration
+\* was installed (and the bucket clipped to the new burst) may still arrive after the clip: windows that
+\* start in that tick are allowed one more tick's rate.
+GLag(s, t1) == IF t1 = s.gsince THEN 1 ELSE 0
+
+\* first tick at which the own bucket of key k is positive (given no further I/O)
+PosTick(s, k) == IF s.lvl[k] > 0 THEN s.last[k] ELSE s.last[k] + ((-s.lvl[k]) \div s.rate[k]) + 1
+(* Progress: the peer is always ready and the output buffer never empty, so a limited bufferevent (not in a  *)
+(* group) whose bucket is positive must perform I/O within one tick (refill timer) - checked after loop      *)
+(* iterations with two ticks of slack: idle for >= 3 ticks with a positive bucket is a stall.                *)
+Stalled(s, k, t) == HasCfg(s, k) /\ ~s.member[(k + 1) \div 2] /\ (s.rf = 1 \/ (k + 1) % 2 = 1) /\ t - Max(PosTick(s, k), s.lastio[k]) >= 3
+
 \* bring the own bucket of key k to tick t
 Upd(s, k, t) == [s EXCEPT !.lvl[k] = Cur(s, k, t), !.last[k] = IF HasCfg(s, k) THEN t ELSE @]
 
@@ -100,15 +115,20 @@ Str(x) == ToString(x)
 \* returns <<new state, "" or complaint>>
 Apply(s, e) ==
     LET t == e.t IN
-    CASE e.e = "reset" -> <<Fresh(e.nb), "">>
+    CASE e.e = "reset" -> <<Fresh(e.nb, e.rf), "">>
       [] e.e = "setcfg" ->
-            <<SetCfgDir(SetCfgDir(s, Key(e.b, 0), e.rr, e.rb, t), Key(e.b, 1), e.wr, e.wb, t), "">>
+            <<[SetCfgDir(SetCfgDir(s, Key(e.b, 0), e.rr, e.rb, t), Key(e.b, 1), e.wr, e.wb, t)
+                  EXCEPT !.lastio[Key(e.b, 0)] = t, !.lastio[Key(e.b, 1)] = t], "">>
       [] e.e = "setmax" -> <<[s EXCEPT !.single[Key(e.b, e.d)] = e.m], "">>
       [] e.e = "group" ->
             <<[s EXCEPT !.hasg = TRUE, !.grate = <<e.rr, e.wr>>, !.gburst = <<e.rb, e.wb>>, !.gms = e.ms,
                         !.glvl = <<e.rr, e.wr>>, !.gsusp = <<0, 0>>, !.gsince = t, !.tobs = t], "">>
+      [] e.e = "gsetcfg" ->      \* RateLimit!GroupSetCfg: install, clip both buckets to the new burst, restart the accounting
+            <<[s EXCEPT !.grate = <<e.rr, e.wr>>, !.gburst = <<e.rb, e.wb>>,
+                        !.glvl = <<Min(s.glvl[1], e.rb), Min(s.glvl[2], e.wb)>>, !.gsince = t,
+                        !.gmoved[1][t] = 0, !.gmoved[2][t] = 0], "">>
       [] e.e = "join" -> <<[s EXCEPT !.member[e.b] = TRUE], "">>
-      [] e.e = "leave" -> <<[s EXCEPT !.member[e.b] = FALSE], "">>
+      [] e.e = "leave" -> <<[s EXCEPT !.member[e.b] = FALSE, !.lastio[Key(e.b, 0)] = t, !.lastio[Key(e.b, 1)] = t], "">>
       [] e.e = "dec" ->
             LET k == Key(e.b, e.d)  u == Upd(s, k, t) IN
             <<[u EXCEPT !.lvl[k] = @ - e.k, !.credit[k][t] = @ + Max(0, -e.k)], "">>
@@ -117,7 +137,7 @@ Apply(s, e) ==
                 allowed == RlimMaxHi(s, e.b, e.d, t)
                 u == Upd(s, k, t)
                 v == [u EXCEPT !.lvl[k] = IF HasCfg(s, k) THEN @ - e.n ELSE @,
-                               !.moved[k][t] = @ + e.n,
+                               !.moved[k][t] = @ + e.n, !.lastio[k] = t,
                                !.gmoved[e.d + 1][t] = IF s.member[e.b] /\ s.hasg THEN @ + e.n ELSE @,
                                !.glvl[e.d + 1] = IF s.member[e.b] /\ s.hasg THEN @ - e.n ELSE @,
                                !.gsusp[e.d + 1] = IF s.member[e.b] /\ s.hasg /\ s.glvl[e.d + 1] - e.n <= 0 THEN 1 ELSE @]
@@ -128,8 +148,8 @@ Apply(s, e) ==
                  THEN "budget: operation moved " \o Str(e.n) \o " bytes, budget min(max_single, bucket, share) is " \o Str(allowed)
                  ELSE IF HasCfg(s, k) /\ ~WindowOK(v.moved[k], v.credit[k], s.burst[k], s.rate[k], t)
                  THEN "WindowBound: bytes in a window ending at tick " \o Str(t) \o " exceed burst + k*rate"
-                 ELSE IF s.member[e.b] /\ s.hasg /\ t > s.gsince /\
-                         ~(\A t1 \in (s.gsince + 1)..t : SumTo(v.gmoved[e.d + 1], t1, t) <= s.gburst[e.d + 1] + (t - t1 + 1) * s.grate[e.d + 1])
+                 ELSE IF s.member[e.b] /\ s.hasg /\
+                         ~(\A t1 \in s.gsince..t : SumTo(v.gmoved[e.d + 1], t1, t) <= s.gburst[e.d + 1] + (t - t1 + 1 + GLag(s, t1)) * s.grate[e.d + 1])
                  THEN "GroupWindowBound: group bytes in a window ending at tick " \o Str(t) \o " exceed burst + k*rate"
                  ELSE "">>
       [] e.e = "obs" ->
@@ -137,8 +157,18 @@ Apply(s, e) ==
                                !.tobs = IF e.al = 1 THEN t ELSE @]
                 badlv == {k \in 1..(2 * s.nb) : HasCfg(s1, k) /\ e.lv[k] # Cur(s1, k, t)}
                 badmx == {k \in 1..(2 * s.nb) : e.mx[k] # RlimMax(s1, (k + 1) \div 2, (k + 1) % 2, t)}
+                badg == {d \in 1..2 : s.hasg /\ (e.gl[d] > s.gburst[d] \/ (e.al = 0 /\ e.gl[d] # s.glvl[d]))}
+                stall == {k \in 1..(2 * s.nb) : e.al = 1 /\ Stalled(s1, k, t)}
             IN <<s1,
-                 IF badlv # {}
+                 IF badg # {}
+                 THEN LET d == CHOOSE d \in badg : TRUE IN
+                      "group level: group bucket " \o Str(d) \o " is " \o Str(e.gl[d]) \o ", burst " \o Str(s.gburst[d]) \o
+                      ", specification " \o (IF e.al = 0 THEN Str(s.glvl[d]) ELSE "<= burst")
+                 ELSE IF stall # {}
+                 THEN LET k == CHOOSE k \in stall : TRUE IN
+                      "progress: key " \o Str(k) \o " has had a positive bucket since tick " \o Str(Max(PosTick(s1, k), s1.lastio[k])) \o
+                      " and has not moved a byte by tick " \o Str(t)
+                 ELSE IF badlv # {}
                  THEN LET k == CHOOSE k \in badlv : TRUE IN
                       "level: key " \o Str(k) \o " bucket is " \o Str(e.lv[k]) \o ", specification " \o Str(Cur(s1, k, t))
                  ELSE IF badmx # {}
@@ -149,7 +179,7 @@ Apply(s, e) ==
                  ELSE "">>
       [] OTHER -> <<s, "unknown event " \o e.e>>
 
-Init == l = 1 /\ st = Fresh(1) /\ bad = ""
+Init == l = 1 /\ st = Fresh(1, 1) /\ bad = ""
 
 Step ==
     /\ l <= Len(Trace) /\ bad = ""
